@@ -98,3 +98,20 @@ def matrix():
 
 
 VNAME = {0x0300: "SSL3.0", 0x0301: "TLS1.0", 0x0302: "TLS1.1", 0x0303: "TLS1.2", 0x0304: "TLS1.3"}
+
+
+_BY_VERSION = None
+
+
+def pick(rng, weights=None):
+    """version-balanced draw from the frozen matrix: the version first (TLS 1.3 has 5 suites of 462 combinations - a uniform draw over
+    the matrix would almost never produce it), then a suite valid for it -> (version, code, name, params)"""
+    global _BY_VERSION
+    if _BY_VERSION is None:
+        _BY_VERSION = {}
+        for row in matrix():
+            _BY_VERSION.setdefault(row[0], []).append(row)
+    w = weights or {0x0300: 1, 0x0301: 1.5, 0x0302: 1, 0x0303: 3, 0x0304: 2.5}
+    vs = sorted(_BY_VERSION)
+    v = rng.choices(vs, [w[x] for x in vs])[0]
+    return rng.choice(_BY_VERSION[v])
